@@ -130,6 +130,11 @@ ROWS = {
                      lib_set="for (int j_ = 0; j_ < {m1}; j_++) for (int i_ = 0; i_ < {m2}; i_++) {n}[j_ * {m2} + i_] = {a}[i_ * {m1} + j_] + (int)(acc % 7);",
                      lib_out="{{ std::vector<int> t_; t_.push_back({m2}); t_.push_back({m1}); for (int i_ = 0; i_ < {m1} * {m2}; i_++) t_.push_back({n}[i_]); vt_arr_int(t_.data(), (long)t_.size()); }}",
                      vals=VEC_VALS),
+    "vec_inout_alloc": dict(yaml="std::vector<int> &{n} +intent(inout)+deref(allocatable)", cxx="std::vector<int> &{n}", ty="arri",
+                            intent="inout", lib_in="vt_arr_int({n}.data(), (long){n}.size());",
+                            acc="for (size_t i_ = 0; i_ < {n}.size(); i_++) acc += {w} * (long)({n}[i_] % 100);",
+                            lib_set="for (size_t i_ = 0; i_ < {n}.size(); i_++) {n}[i_] = ({n}[i_] % 100) + {w}; {n}.push_back((int)(acc % 9));",
+                            lib_out="vt_arr_int({n}.data(), (long){n}.size());", vals=VEC_VALS),
     "cls_p": dict(yaml="Cls *{n}", cxx="Cls *{n}", ty="obj", intent="in",
                   lib_in="vt_obj({n});", acc="acc += {w} * (long)({n}->value % 100);",
                   c_decl="", c_arg="&{obj}", c_in="vt_obj({obj}.addr);", vals=["1"] * 6, needs_obj=True),
@@ -262,6 +267,8 @@ FROWS = {
                       fin="call vt_arr_int({n}(1:{sz}), {sz}_C_LONG)", fout="call vt_arr_int({n}(1:{sz}), {sz}_C_LONG)", vk="int"),
     "vec_out_alloc": dict(decl="integer(C_INT), allocatable :: {n}(:)", set="continue", arg="{n}",
                           fout="call vt_arr_int({n}, size({n}, kind=C_LONG))", vk="int"),
+    "vec_inout_alloc": dict(decl="integer(C_INT), allocatable :: {n}(:)", set="{n} = [1, {v}, -2, 8]; {n} = {n}(1:{sz})", arg="{n}",
+                            fin="call vt_arr_int({n}, size({n}, kind=C_LONG))", fout="call vt_arr_int({n}, size({n}, kind=C_LONG))", vk="int"),
     # rank 2: {r} x {c} is (3,2), (1,4), (2,2), (4,1) in turn
     "arr2_in": dict(decl="integer(C_INT) :: {n}({r},{c}), k_{n}", set="{n} = reshape([(k_{n} * 3 + ({v}), k_{n} = 1, {r} * {c})], [{r}, {c}])",
                     arg="{n}", fin=F2D, vk="int"),
@@ -289,6 +296,7 @@ def vector_cases():
             F("v2", "void", [P("vec_inout", "v")]),
             F("v3", "int", [P("int_v", "k"), P("vec_out_alloc", "v")]),
             F("v4", "iptr3", [P("int_v", "k")]),
+            F("v9", "int", [P("vec_inout_alloc", "v"), P("int_v", "k")]),
             F("v5", "double", [P("vec_in", "a"), P("vec_inout", "b"), P("vec_out_alloc", "c")]),
             # fortran_generic: one C++ function, a generic interface with one specific per listed declaration
             F("v7", "int", [P("double_v", "x"), P("int_v", "k")], fgeneric=[{}, {"x": "float_for_double"}],
